@@ -379,6 +379,7 @@ def run_concrete(job, vals, tables):
         prev_left = signal.setitimer(signal.ITIMER_REAL, CONCRETE_RUN_LIMIT_S)[0]
     except (ValueError, OSError):
         prev_handler = None
+    t_start = time.time()
     try:
         with _quiet():
             job.fn(S, **job.params)
@@ -394,7 +395,7 @@ def run_concrete(job, vals, tables):
         try:
             if prev_handler is not None:
                 signal.signal(signal.SIGALRM, prev_handler)
-                signal.setitimer(signal.ITIMER_REAL, max(prev_left - CONCRETE_RUN_LIMIT_S, 1.0) if prev_left else 0)
+                signal.setitimer(signal.ITIMER_REAL, max(prev_left - (time.time() - t_start), 1.0) if prev_left else 0)
         except (ValueError, OSError):
             pass
         if was:
